@@ -70,14 +70,27 @@ def gen_enddef_cases(i0, version, EC, rng, tier):
                 combos.append((kinds, szs))
     rng.shuffle(combos)
     n = 60 if tier == "quick" else 600
-    for (kinds, szs) in combos[:n]:
+    for ci, (kinds, szs) in enumerate(combos[:n]):
         sc = Script()
-        sc.add("*", "create", f=0, path="s:@OUT@/e.nc", cmode=FMT_CMODE[version], info="nc_header_align_size:4;nc_record_align_size:4")
+        # every second multi-variable combination is defined in two define-mode sessions (enddef, redef, the rest): the
+        # rules are positional, so a variable accepted as "the last one" must be re-examined when another follows it.
+        # (CDF-2/5 only, with header room so that nothing has to move; CDF-1 adds offset rules that depend on the header)
+        split = (ci % 2 == 0 and len(kinds) >= 2 and version != 1)
+        sp = rng.randint(1, len(kinds) - 1) if split else None
+        exp_extra = {}
+        sc.add("*", "create", f=0, path="s:@OUT@/e.nc", cmode=FMT_CMODE[version], info="nc_header_align_size:%d;nc_record_align_size:4" % (4096 if split else 4))
         s = cs.Schema(version)
         s.dims.append([b"t", 0])
         sc.add("*", "def_dim", f=0, name="s:t", len=0)
         vars_ = []
         for k, (isrec, nb) in enumerate(zip(kinds, szs)):
+            if split and k == sp:
+                w1 = enddef_rule(version, vars_, cs.header_len(s))
+                l1 = sc.add("*", "enddef", f=0)
+                exp_extra[l1] = (w1, "first enddef of CDF-%d with %s" % (version, ["%s %d bytes" % ("record" if r else "fixed", n) for r, n in vars_]))
+                if w1 == "OK":
+                    l2 = sc.add("*", "redef", f=0)
+                    exp_extra[l2] = ("OK", "redef")
             # byte variables over one or two dimensions whose product is nb
             if nb > 2 ** 31 - 1 and version != 5:
                 a, b = 4, nb // 4
@@ -105,8 +118,10 @@ def gen_enddef_cases(i0, version, EC, rng, tier):
             want = enddef_rule(version, vars_, cs.header_len(s))
             l = sc.add("*", "enddef", f=0)
             sc.add("*", "abort", f=0)
-            cases.append(Case("c18_end_%05d" % (i0 + len(cases)), 1, sc.lines, meta={"exp": {l: (want, "enddef of CDF-%d with %s" % (version, ["%s %d bytes" % ("record" if r else "fixed", n) for r, n in vars_]))},
-                                                                                    "kind": "enddef", "feat": {("enddef", version, tuple(r for r, _ in vars_), want)}}))
+            exp_all = dict(exp_extra)
+            exp_all[l] = (want, "%senddef of CDF-%d with %s" % ("second (after redef) " if split else "", version, ["%s %d bytes" % ("record" if r else "fixed", n) for r, n in vars_]))
+            cases.append(Case("c18_end_%05d" % (i0 + len(cases)), 1, sc.lines, meta={"exp": exp_all,
+                                                                                    "kind": "enddef", "feat": {("enddef", version, tuple(r for r, _ in vars_), want, sp)}}))
     return cases
 
 
